@@ -144,4 +144,17 @@ CHECKS["C04"] = dict(
     assumptions=["linear term functions from the injective family; non-linear user terms are not explored", "scripted stepper restricted to the call shape of GSL's explicit steppers"],
     runs=[run("c04", "c04.cpp", shards=16), run("c04_asan", "c04.cpp", "asan", args=["--reduced"], shards=4)],
 )
+
+CHECKS["C10"] = dict(
+    level=MC, engine="history-explorer",
+    technique="explicit enumeration of all operation histories up to a depth on the real solver objects, checked step by step against a piecewise closed-form reference model",
+    rule="alphabet of 19 operations {Evolve(0|0.3|0.7), toggle each of the 5 term switches, Set_AnyNumerics(false|true), stepper rkf45|rk4|msadams, toggle adaptive, toggle tolerance, move-construct, "
+         "move-assign into a fresh and into a used solver (other dimensions), re-ini} on a Probe solver (nx=2, nsun in {2,3}, 1 rho, 1 scalar); every history up to depth 3 (quick, under ASan) / depth 4 plus all depth-5 "
+         "histories with >=2 Evolve (thorough); no state merging (values matter); a state is a history, a transition an operation application checked by the oracle",
+    assumptions=["closed-form reference (commuting diagonal terms)", "msadams only in adaptive mode", "moved-from solvers are destroyed immediately (and their problem description poisoned first)"],
+    runs=[run("c10_asan", "c10.cpp", "asan", shards=16, args=["--depth", "3"], tiers=("quick",)),
+          run("c10_asan_t", "c10.cpp", "asan", shards=16, args=["--depth", "3"], tiers=("thorough",)),
+          run("c10_d4", "c10.cpp", "prod", shards=16, args=["--depth", "4", "--deadline", "1500"], tiers=("thorough",)),
+          run("c10_d5", "c10.cpp", "prod", shards=16, args=["--depth", "5", "--min-evolves", "2", "--deadline", "3000"], tiers=("thorough",))],
+)
 NOT_APPLICABLE = {}
